@@ -684,7 +684,9 @@ def run(chk, pid):
                 chk.count("op:%s %s" % (op[0], "ok" if s["rc"] == 0 else errname(s["rc"])))
                 if op[0] == "remove" and s["rc"] == 0:
                     live = [e for e in s["before"]["tab"] if e[0] != 0]
-                    pos = next(j for j, e in enumerate(live) if e[0] == op[1])
+                    pos = next((j for j, e in enumerate(live) if e[0] == op[1]), None)
+                    if pos is None:
+                        continue            # a removal that "succeeded" on a type the file does not hold: the oracles will speak
                     where = "only" if len(live) == 1 else "first" if pos == 0 else "last" if pos == len(live) - 1 else "middle"
                     free = s["before"]["n"] - len(live)
                     chk.count("remove:%s live block, %s unused after" % (where, "0" if free == 0 else "1" if free == 1 else "many"))
